@@ -66,8 +66,9 @@ def replay_relay_quiesce(k, low, mx, hard, batch, lose_at, reconnect, hp_at):
   return _relay_quiesce(L.real_client, k, low, mx, hard, batch, lose_at, reconnect, hp_at)
 
 
-def _relay_repeat(mod, low, mx, hard, batch, rounds):
-  """Pause/resume must re-arm: fill to MAX, drain to quiescence, `rounds` times over."""
+def _relay_repeat(mod, low, mx, hard, batch, rounds, partial=0, relose=False):
+  """Pause/resume must re-arm: fill to MAX, drain to quiescence, `rounds` times over.  Optionally the
+  connection is lost and re-established after `partial` batches of the drain have gone out."""
   clock = L.configure(mod, low, mx, hard, batch)
   with L.Wiring():
     f = L.make_factory(mod)
@@ -82,25 +83,33 @@ def _relay_repeat(mod, low, mx, hard, batch, rounds):
         return True                          # MAX beyond the harness' reach (bounded fill)
       cover('paused')
       proto.resumeProducing()
+      if relose:
+        for _ in range(partial):
+          clock.advance(0.00011)             # one deferred send at a time
+        cover('reconnected_mid_drain')
+        L.lose(f, proto)
+        proto, t, batches = L.connect(f)
       L.drain_clock(clock)
       if state.metricReceiversPaused:
         raise AssertionError('round %d: drained to %d (< low watermark) but receivers still paused' % (r, len(f.queue)))
   return True
 
 
-def C09_relay_repeat(low: int, mx: int, hard: int, batch: int, rounds: int) -> bool:
+def C09_relay_repeat(low: int, mx: int, hard: int, batch: int, rounds: int, partial: int, relose: bool) -> bool:
   """
   pre: 1 <= low <= mx <= hard
   pre: mx <= 5
   pre: batch >= 1
   pre: 1 <= rounds <= 3
+  pre: 0 <= partial <= 3
+  pre: relose or partial == 0
   post: __return__
   """
-  return _relay_repeat(L.SHADOW, low, mx, hard, batch, rounds)
+  return _relay_repeat(L.SHADOW, low, mx, hard, batch, rounds, partial, relose)
 
 
-def replay_relay_repeat(low, mx, hard, batch, rounds):
-  return _relay_repeat(L.real_client, low, mx, hard, batch, rounds)
+def replay_relay_repeat(low, mx, hard, batch, rounds, partial, relose):
+  return _relay_repeat(L.real_client, low, mx, hard, batch, rounds, partial, relose)
 
 
 DEST_B = ('10.0.0.2', 2004, 'a')
@@ -316,10 +325,11 @@ HARNESSES = [
              'carbon.client:CarbonClientFactory.queueFullCallback', 'carbon.client:CarbonClientFactory.queueSpaceCallback',
              'carbon.events (pause/resume chain)'],
     assumptions=_ASSUME + ['one destination, 0..4 arrivals, optional connection loss / re-establishment and self-metric at a symbolic position']),
-  H('C09_relay_repeat', quick=dict(timeout=280, shards=[('r%d' % r, 'rounds == %d' % r) for r in (1, 2)]),
-    thorough=dict(timeout=900, shards=[('r%d' % r, 'rounds == %d' % r) for r in (1, 2, 3)]), covers=['paused'], replay='replay_relay_repeat',
+  H('C09_relay_repeat', quick=dict(timeout=280, shards=[('r%d_l0' % r, 'rounds == %d and not relose' % r) for r in (1, 2)] + [('r1_l1_p%d' % q, 'rounds == 1 and relose and partial == %d and batch <= 3 and hard <= 6' % q) for q in range(4)]),
+    thorough=dict(timeout=900, shards=[('r%d_l%d' % (r, l), 'rounds == %d and relose == %s' % (r, bool(l))) for r in (1, 2, 3) for l in (0, 1)]), covers=['paused', 'reconnected_mid_drain'], replay='replay_relay_repeat',
+    twin_pre=['relose'],
     encodes=['carbon.client:CarbonClientFactory.queueSpaceCallback (re-arming of queueFull / queueHasSpace)'],
-    assumptions=_ASSUME + ['MAX_QUEUE_SIZE <= 5 so that the bounded fill reaches it; 1-2 (quick) / 3 (thorough) pause-resume rounds']),
+    assumptions=_ASSUME + ['MAX_QUEUE_SIZE <= 5 so that the bounded fill reaches it; 1-2 (quick) / 3 (thorough) pause-resume rounds; optionally the connection is lost and re-established after 0-3 batches of the drain']),
   H('C09_relay_two', quick=dict(timeout=280, shards=[('dyn', 'dynamic'), ('static', 'not dynamic')]), covers=['paused', 'removed'],
     replay='replay_relay_two', twin_pre=['dynamic'],
     encodes=['carbon.client:CarbonClientManager.sendDatapoint', 'carbon.client:CarbonClientFactory.destinationDown',
